@@ -122,8 +122,10 @@ def decode_gcs(key, gcs):
 class CompactFilter:
     def __init__(self, key, hashes):
         self.key = key
+        hashes = list(hashes)
+        # F = N * M where N counts every element of the filter, including equal hashes
+        self.f = len(hashes) * GOLOMB_M
         self.hashes = set(hashes)
-        self.f = len(self.hashes) * GOLOMB_M
 
     def __repr__(self):
         result = f"{self.key.hex()}:\n\n"
@@ -138,7 +140,7 @@ class CompactFilter:
 
     @classmethod
     def parse(cls, key, filter_bytes):
-        return cls(key, set(decode_gcs(key, filter_bytes)))
+        return cls(key, decode_gcs(key, filter_bytes))
 
     def hash(self):
         return hash256(self.serialize())
